@@ -13,7 +13,7 @@ use ops::HistCase;
 /// `prop` end the judgement of the case (the model may be out of step afterwards) and are only counted.
 pub fn run_for(prop: &'static str, case: &HistCase, epoll_each_step: bool) -> (Facts, Option<Violation>, Option<Violation>) {
     let trace = world::run_history(case, world::Opts { epoll_each_step });
-    let judged = Monitor::judge(&trace);
+    let judged = Monitor::judge_for(&trace, prop);
     if std::env::var("VERIF_TRACE").is_ok() && (judged.violation.is_some() || std::env::var("VERIF_TRACE").as_deref() == Ok("all")) {
         for (i, e) in trace.iter().enumerate() {
             eprintln!("{i:4} {e:?}");
